@@ -31,6 +31,8 @@ type monValset struct {
 	// provider's) has to compute the new threshold from
 	activePowersAtBegin []int64
 	maxActiveAtBegin    int64
+	activePowersPreEnd  []int64
+	maxActivePreEnd     int64
 }
 
 // topNThreshold is the statement's m: the smallest power such that validators with at least that power hold >= N percent.
@@ -158,7 +160,28 @@ func (m *monValset) checkListIndexes(ctx sdk.Context, id string) {
 	cmp("C04", "prioritylist", ps.Prioritylist, pk.GetPriorityList(ctx, id))
 }
 
-func (m *monValset) PreEnd(ctx sdk.Context) {}
+// PreEnd: what a Top-N change executed in this block's gov EndBlocker will see as "active validators". The provider takes the
+// first M of x/staking's *live* power index (current tokens, already moved by this block's transactions) and reads their *last*
+// powers - mid-block that is a hybrid of the previous and the next active set (documented behaviour of GetLastBondedValidatorsUtil).
+func (m *monValset) PreEnd(ctx sdk.Context) {
+	pk := m.w.P.PApp.ProviderKeeper
+	sk := m.w.P.PApp.StakingKeeper
+	m.activePowersPreEnd = nil
+	m.maxActivePreEnd = pk.GetMaxProviderConsensusValidators(ctx)
+	vals, err := sk.GetBondedValidatorsByPower(ctx)
+	if err != nil {
+		return
+	}
+	for i, v := range vals {
+		if int64(i) >= m.maxActivePreEnd {
+			break
+		}
+		if va, err := sdk.ValAddressFromBech32(v.GetOperator()); err == nil {
+			lp, _ := sk.GetLastValidatorPower(ctx, va)
+			m.activePowersPreEnd = append(m.activePowersPreEnd, lp)
+		}
+	}
+}
 
 func (m *monValset) PostEnd(ctx sdk.Context) {
 	w := m.w
@@ -190,7 +213,7 @@ func (m *monValset) checkTopNChange(ctx sdk.Context, id string) {
 	if err != nil || ps.Top_N == before.TopN {
 		return
 	}
-	if pk.GetMaxProviderConsensusValidators(ctx) != m.maxActiveAtBegin {
+	if pk.GetMaxProviderConsensusValidators(ctx) != m.maxActivePreEnd {
 		w.Event("C03", "topn-changes-not-judged-because-the-active-set-size-changed-in-the-same-block")
 		return
 	}
@@ -204,10 +227,19 @@ func (m *monValset) checkTopNChange(ctx sdk.Context, id string) {
 		}
 		return
 	}
-	mStar, ok := topNThreshold(m.activePowersAtBegin, ps.Top_N)
+	// the set recorded at the start of the block when no transaction of this block moved the power index; otherwise the
+	// mid-block view described at PreEnd
+	powers := m.activePowersPreEnd
+	a, b := append([]int64(nil), m.activePowersAtBegin...), append([]int64(nil), m.activePowersPreEnd...)
+	sort.Slice(a, func(i, j int) bool { return a[i] < a[j] })
+	sort.Slice(b, func(i, j int) bool { return b[i] < b[j] })
+	if fmt.Sprint(a) != fmt.Sprint(b) {
+		w.Event("C03", "topn-changes-judged-against-the-mid-block-power-index")
+	}
+	mStar, ok := topNThreshold(powers, ps.Top_N)
 	if ok && (!hasM || mStored != mStar) {
 		w.Violation("C03", "stored-threshold-differs:topn-change", map[string]any{"consumer": id, "old_N": before.TopN, "N": ps.Top_N, "stored": mStored, "has": hasM,
-			"expected": mStar, "active_powers": m.activePowersAtBegin})
+			"expected": mStar, "active_powers": powers, "recorded_at_begin": m.activePowersAtBegin})
 	}
 }
 
